@@ -135,7 +135,7 @@ def run(chk):
                     chk.ob("R3.reads", fn, "read_exact failure is mapped (truncation -> error)", handled, "a read error is ignored", where=fb.where(blk))
         for fn, blk in bad:
             chk.ob("R3.reads", fn, "bare read in the blocking decoder", False, "a partial read would be taken for a complete field", where=prog.bodies[fn].where(blk))
-        chk.floor("read_exact sites in the frame decoder", good, 5)
+        chk.floor("read_exact sites in the frame decoder", good, 2)
         # unmasking: key[i % 4]
         # (closure passed to for_each, or a `for` loop in the decoder itself)
         cl = [c for c in [b] + prog.closures_of(DEC) if c is not None and any(blk["term"] and blk["term"]["k"] == "assert" and blk["term"]["akind"] == "rem_zero" for blk in c.blocks)]
